@@ -711,7 +711,8 @@ class ExprMixin:
         outer_defer = getattr(self, "_defer", None)
         self._defer = []
         try:
-            self.bind_target(g.target, self.retag(L.nth(sv.term, j), self.elem_tag(sv)))
+            # the elements of a program object are program objects (taint is carried by the tag)
+            self.bind_target(g.target, self.retag(L.nth(sv.term, j), self.elem_tag(sv) or ("Val" if self.tainted(src) else None)))
             conds = [as_bool(self.eval(c)) for c in g.ifs]
             if conds:
                 st.qctx.append(((), z3.And(*conds)))
